@@ -194,13 +194,14 @@ PROPS['C26'] = {
         K('kani:allow_list_enforced', 'sdk', [H('c26_allow_list_enforced')], timeout=900,
           functions=[('sdk/src/http/restricted.rs', 'http_resolve', r'impl<T: SyncHttpResolver> SyncHttpResolver for RestrictedResolver<T> \{')],
           stubs=['is_uri_allowed -> arbitrary Boolean', 'sanitize_for_log -> empty string']),
-        B('native:host_patterns', 'sdk', [{'name': 'c26_host_pattern_matching_small_domain', 'tier': 'quick'}, {'name': 'c26_c27_redirect_chains_through_stacked_resolvers', 'tier': 'quick'}],
-          functions=[('sdk/src/http/restricted.rs', 'matches'), ('sdk/src/http/restricted.rs', 'is_uri_allowed', None)],
+        B('native:host_patterns', 'sdk', [{'name': 'c26_host_pattern_matching_small_domain', 'tier': 'quick'}, {'name': 'c26_c27_redirect_chains_through_stacked_resolvers', 'tier': 'quick'},
+                                          {'name': 'c26_default_resolver_enforces_the_configured_allow_list', 'tier': 'quick'}],
+          functions=[('sdk/src/context.rs', 'build_default_sync_resolver'), ('sdk/src/http/restricted.rs', 'matches'), ('sdk/src/http/restricted.rs', 'is_uri_allowed', None)],
           bounds='patterns: all strings <= 3 (thorough 4) over {a b . * A} x 3 ports x 4 scheme prefixes; URIs: hosts <= 4 over {a b . A} x 2 schemes x 3 ports; redirect chains of the stacked resolvers over 9 targets'),
     ],
     'trusted_base': TB_KANI,
     'rule': 'proof obligation = one complete Kani harness (all CBMC checks incl. safety checks SUCCESS, covers SATISFIED)',
-    'not_covered': ['resolver stacking (Context::build_default_sync_resolver / async)', 'async flavour'],
+    'not_covered': ['async resolver stack (build_default_async_resolver; same text)', 'custom resolvers supplied by the caller'],
 }
 
 
